@@ -30,6 +30,7 @@
 #include <fcntl.h>
 #include <errno.h>
 #include <signal.h>
+#include <sys/resource.h>
 #include <string.h>
 #include <map>
 #include <set>
@@ -67,7 +68,7 @@ struct Case {
 	std::set<std::string> flags;
 	size_t mark;
 	int stage;               // 0 script running, 1 final cancel issued, 2 stop issued
-	long polls;
+	long polls, nops;
 	pthread_t loop_thread;
 	bool in_run;
 	// timers
@@ -97,6 +98,13 @@ void exec_ops(std::vector<Op> const &ops);
 
 void on_run(long long k, error_code const &e)
 {
+	if(C->log.size() >= 3000) {
+		// runaway (a correct loop invokes every handler once, scripts have < 200 handlers): stop the case
+		C->flags.insert("OVERRUN");
+		C->stage = 2;
+		C->srv->stop();
+		return;
+	}
 	C->log.push_back(itos(k) + ":" + code_name(e) + "@" + itos(C->vms));
 	C->pending_posts.erase(k);
 	C->ran.insert(k);
@@ -110,11 +118,14 @@ void on_run(long long k, error_code const &e)
 struct HPost { long long k; void operator()() const { on_run(k, error_code()); } };
 struct HEv { long long k; void operator()(error_code const &e) const { on_run(k, e); } };
 
+struct HIo { long long k; void operator()(error_code const &e, size_t n) const { on_run(k, n == 5 ? e : error_code(99, booster::system::system_category())); } };
+
 ptime abs_time(long long ms) { return ptime::milliseconds(BASE_SEC * 1000 + ms); }
 
 void exec_op(Op const &o)
 {
 	Case &c = *C;
+	if(++c.nops > 50000) { c.flags.insert("OVERRUN"); return; }
 	std::string const &t = o.t;
 	int f = int(o.a);
 	if(t == "P") {
@@ -122,6 +133,20 @@ void exec_op(Op const &o)
 		c.pending_posts.insert(o.a);
 		HPost h = { o.a };
 		c.srv->post(h);
+	}
+	else if(t == "PE") {
+		// post(event_handler, code): completes with the code given
+		c.subs.push_back(itos(o.a) + ":pe");
+		c.pending_posts.insert(o.a);
+		HEv h = { o.a };
+		c.srv->post(h, error_code(aio::aio_error::canceled, aio::aio_error_cat));
+	}
+	else if(t == "PI") {
+		// post(io_handler, code, n)
+		c.subs.push_back(itos(o.a) + ":p");
+		c.pending_posts.insert(o.a);
+		HIo h = { o.a };
+		c.srv->post(h, error_code(), 5);
 	}
 	else if(t == "T" || t == "U") {
 		long long dl = c.vms + o.b;
@@ -354,7 +379,7 @@ bool parse(std::vector<std::string> const &tok, Case &c, std::string &err)
 		if(t == "[") { if(i + 1 >= tok.size()) { err = "["; return false; } cur = &c.bodies[atoll(tok[i + 1].c_str())]; in_body = true; i += 2; continue; }
 		if(t == "]") { in_body = false; cur = 0; i++; continue; }
 		if(t == "X") ar = 0;
-		else if(t == "P" || t == "CT" || t == "CF" || t == "CL" || t == "W" || t == "R" || t == "F" || t == "D" || t == "K" || t == "A") ar = 1;
+		else if(t == "P" || t == "PE" || t == "PI" || t == "CT" || t == "CF" || t == "CL" || t == "W" || t == "R" || t == "F" || t == "D" || t == "K" || t == "A") ar = 1;
 		else if(t == "T" || t == "U" || t == "I" || t == "O") ar = 2;
 		if(ar < 0 || !cur) { err = "op " + t; return false; }
 		if(i + ar > tok.size() - 1) { err = "arity " + t; return false; }
@@ -381,7 +406,7 @@ std::string loop_case(std::vector<std::string> const &tok)
 {
 	Case c;
 	std::string err;
-	c.srv = 0; c.next_phase = 0; c.vms = 100000; c.stop_pending = false; c.stage = 0; c.mark = 0; c.polls = 0; c.in_run = false; c.order = 0;
+	c.srv = 0; c.next_phase = 0; c.vms = 100000; c.stop_pending = false; c.stage = 0; c.mark = 0; c.polls = 0; c.nops = 0; c.in_run = false; c.order = 0;
 	for(int i = 0; i < 4096; i++) c.idx_of_fd[i] = -1;
 	if(!parse(tok, c, err)) return "loop BAD-CASE " + err;
 	C = &c;
@@ -451,11 +476,15 @@ std::string loop_case(std::vector<std::string> const &tok)
 int main()
 {
 	signal(SIGPIPE, SIG_IGN);
+	// a broken loop must not take the machine down: bounded address space, and a watchdog per case
+	struct rlimit rl = { 3ULL << 30, 3ULL << 30 };
+	setrlimit(RLIMIT_AS, &rl);
 	std::ios::sync_with_stdio(false);
 	std::string line;
 	while(std::getline(std::cin, line)) {
 		std::vector<std::string> tok = hx::split(line);
 		std::string out;
+		alarm(300);
 		if(tok.empty()) out = "BAD-CASE";
 		else if(tok[0] == "loop") out = loop_case(tok);
 		else if(tok[0] == "pool") out = c17_pool_case(tok);
